@@ -19,6 +19,10 @@ pub mod host {
     include!("sliced/base.rs");
     include!("sliced/sync.rs");
     include!("sliced/peer.rs");
+    include!("sliced/parts.rs");
+    // the three request-producing blocks of compute_available_needs' per-actor loop body,
+    // each sliced as a method so that `self` keeps its meaning
+    include!("sliced/impl_parts.rs");
 
     #[cfg(kani)]
     mod proofs {
